@@ -155,10 +155,34 @@ def main(tier_):
             v.violation(dict(check="backend-equivalence", family="nul-byte", op=call["op"], kernel=list(k), emulated=list(e)),
                         "C04/%s(%r) [path with an interior NUL byte]: kernel backend %s, emulated backend %s" % (call["op"], call.get("path") or (call.get("src"), call.get("dst")), k, e),
                         dict(id="replay", tree=race.RACE_TREES["links"], feat={"openat2": True}, trace=False, calls=[call]))
+    # (e) names and paths that are not valid UTF-8, next to look-alike siblings named like their lossy conversion
+    hx = lambda b: b.hex()
+    rtree = [dict(id=5, p=2, n="", nhex=hx(b"caf\xe9"), k="dir"), dict(id=6, p=5, n="inner", k="file"), dict(id=7, p=2, n="caf\ufffd", k="dir"), dict(id=8, p=7, n="inner", k="file"),
+             dict(id=9, p=2, n="lk", k="lnk", b="", bhex=hx(b"caf\xe9/inner"))]
+    raw_calls = [dict(op="resolve", path="", path_hex=hx(b"caf\xe9/inner")), dict(op="open", path="", path_hex=hx(b"lk"), oflags=O["RDONLY"] | O["NONBLOCK"]),
+                 dict(op="readlink", path="", path_hex=hx(b"lk")), dict(op="mkdir_all", path="", path_hex=hx(b"caf\xe9/n\xff/x"), mode=0o755),
+                 dict(op="create", path="", path_hex=hx(b"caf\xe9/f\xfe"), kind="file", mode=0o644), dict(op="remove_file", path="", path_hex=hx(b"caf\xe9/inner")),
+                 dict(op="create_file", path="", path_hex=hx(b"caf\xe9/cf\x80"), oflags=O["RDWR"], mode=0o600), dict(op="remove_all", path="", path_hex=hx(b"caf\xe9"))]
+    rres = {}
+    for bname, feat in rootops_static.FEATS:
+        r = run_pv([dict(id="raw|" + bname, tree=rtree, feat=feat, trace=False, calls=raw_calls)], jobs=1, tag="C04w")[0]
+        if r.get("status") != "ok" or "results" not in r["out"][0]:
+            raise ToolError("raw-byte case failed: %s" % json.dumps(r)[:300])
+        rres[bname] = ([norm(x) for x in r["out"][0]["results"]], sorted((d["p"], d["n"], d["c"] if d["c"] < 13 else "NEW") for d in r["final"]["dents"]))
+    for ci, call in enumerate(raw_calls):
+        stats["raw_byte_cases"] += 1
+        k, e = rres["kernel"][0][ci], rres["emulated"][0][ci]
+        if k != e:
+            v.violation(dict(check="backend-equivalence", family="raw-bytes", op=call["op"], kernel=list(k), emulated=list(e)),
+                        "C04/%s(%r) [path bytes that are not valid UTF-8]: kernel backend %s, emulated backend %s" % (call["op"], bytes.fromhex(call["path_hex"]), k, e),
+                        dict(id="replay", tree=rtree, feat={"openat2": True}, trace=False, calls=[call]))
+    if rres["kernel"][1] != rres["emulated"][1]:
+        v.violation(dict(check="backend-equivalence", family="raw-bytes", op="final-tree"), "C04: after the operations on paths with raw bytes the two backends left different trees: kernel %s, emulated %s" % (
+            [x for x in rres["kernel"][1] if x not in rres["emulated"][1]][:4], [x for x in rres["emulated"][1] if x not in rres["kernel"][1]][:4]), {})
     if nres["kernel"][1] != nres["emulated"][1]:
         v.violation(dict(check="backend-equivalence", family="nul-byte", op="final-tree"), "C04: after the operations with NUL bytes in their paths the two backends left different trees", {})
     rc = v.finish()
-    cov = dict(nul_byte_cases=stats["nul_cases"], states=cova["states"] + data["gen"]["distinct"], transitions=cova["transitions"] + data["gen"]["states"],
+    cov = dict(nul_byte_cases=stats["nul_cases"], raw_byte_cases=stats["raw_byte_cases"], states=cova["states"] + data["gen"]["distinct"], transitions=cova["transitions"] + data["gen"]["states"],
                traces_validated_against_impl=stats["lookup_cases"] + stats["mutation_cases"] + stats["mkrm_cases"] + stats["lattice_cases"], samples=samples or cova["samples"][:2],
                evaluations=2 * (stats["lookup_cases"] + stats["mutation_cases"] + stats["mkrm_cases"] + stats["lattice_cases"]),
                distinct_nontrivial=stats["mutation_cases"] + stats["mkrm_cases"] + stats["lattice_cases"],
